@@ -41,7 +41,10 @@ RULE = ("fn: generated source for signatures of 0-5 parameters (defaults on a su
         "(positional prefix + keywords in any order; too many positionals, clashes, unknown keys, values "
         "violating hints, repeated calls); transformers of size 0-6 plus 11, 12 and one size in 20..25 "
         "(two-digit channel indices, distinct value per position); dataclass layouts (required/default/"
-        "factory, plain or postponed annotations). Non-trivial = at least one step returns a value and the "
+        "factory, plain or postponed annotations); hand-written `class f(Function)` / `class f(B)` hierarchies "
+        "(derived class overriding node_function, base used before or after it); several transformer nodes "
+        "made in one process from permuted inputs-to-dict specifications (name lists and full specs) or at "
+        "neighbouring sizes, each checked against its own specification. Non-trivial = at least one step returns a value and the "
         "node has >=1 input; distinct = distinct case JSON")
 TRUSTED = ["harness renderer: writes the python source of the described function/dataclass; the fragments it "
            "records for every returned expression are compared with what CPython's ast reports on every case "
@@ -318,8 +321,33 @@ def canonical_text(e):
     return op + ", ".join(canonical_text(x) for x in e[1]) + ("," if k == "t" and len(e[1]) == 1 else "") + cl_
 
 
+def class_source(case):
+    """hand-written node classes: `class B(Function)` with a node_function staticmethod (the base,
+    optional) and `class f(B)` overriding it; -> (source, fragment lists of f's statements)"""
+    lines = ["from pyiron_workflow.nodes.function import Function", "import typing", "", ""]
+    base = case.get("base")
+    chain = ([("B", "Function", base)] if base else []) + [("f", "B" if base else "Function", case)]
+    frags = None
+    for cname, parent, d in chain:
+        src, frags = fn_source({**d, "via": "call", "postponed": False, "nested": False, "base": None})
+        fl = src.split("\n")
+        k = next(i for i, l in enumerate(fl) if l.startswith("def f("))
+        lines.append(f"class {cname}({parent}):")
+        if d["declared"]:
+            lines.append("    _output_labels = (" + ", ".join(json.dumps(l) for l in d["declared"]) + ",)")
+        lines.append(f"    _validate_output_labels = {bool(d['validate'])}")
+        lines.append("")
+        lines.append("    @staticmethod")
+        lines.append("    def node_function(" + fl[k][len("def f("):])
+        lines.extend("    " + l if l else l for l in fl[k + 1:])
+        lines.append("")
+    return "\n".join(lines), frags
+
+
 def fn_source(case):
     """python source of the described function (named f) and the fragment lists per statement"""
+    if case["via"] == "class":
+        return class_source(case)
     ps = []
     for p in case["params"]:
         t = p["name"]
@@ -477,6 +505,16 @@ def fn_objects(case):
     if case["via"] == "at":
         def make_class():
             return load_module(src).f
+    elif case["via"] == "class":
+        def make_class():
+            mod = load_module(src, fresh=True)       # fresh class objects: previews are memoised on them
+            if case.get("base") and case.get("base_first"):
+                try:                                  # the base class is used first
+                    mod.B.preview_io()
+                    mod.B().recovery = None
+                except Exception:
+                    pass
+            return mod.f
     elif case["via"] == "to":
         def make_class():
             from pyiron_workflow.nodes.function import to_function_node
@@ -559,6 +597,12 @@ def dc_objects(case):
 
 def run_impl(case):
     k = case["kind"]
+    if k == "multi":            # several nodes made one after the other in one process
+        from pyiron_workflow.nodes import transform as T
+        for fac in (T.inputs_to_dict_factory, T.inputs_to_list_factory, T.list_to_outputs_factory,
+                    T.inputs_to_dataframe_factory):
+            fac.clear()         # start from empty class registries: the case is self-contained (replayable)
+        return [run_impl(c) for c in case["cases"]]
     if k == "fn":
         mk, inst = fn_objects(case)
     elif k == "dc":
@@ -631,10 +675,18 @@ def model_term(case):
     if not strings_ok(case):
         return None
     k = case["kind"]
+    if k == "multi":
+        subs = [model_term(c) for c in case["cases"]]
+        return None if any(t is None for t in subs) else "(OL " + cl(subs) + ")"
     pos0, kw0 = case["ops"][0]
     kw0c = cl(f"({cs(a)}, {val_coq(b)})" for a, b in kw0)
     pos0c = cl(val_coq(v) for v in pos0)
     rest = ops_coq(case["ops"][1:])
+    if k == "fn" and case["via"] == "class" and case.get("base"):
+        b = fdesc_coq({**case["base"], "via": "call"})
+        d = fdesc_coq(case)
+        return (f"(let d := derive {cb(bool(case.get('base_first')))} {b} {d} in oscenario (sem_of d) "
+                f"(function_class d) (fun k => instantiate k {pos0c} {kw0c}) {rest})")
     if k == "fn":
         d = fdesc_coq(case)
         return f"(let d := {d} in oscenario (sem_of d) (function_class d) (fun k => instantiate k {pos0c} {kw0c}) {rest})"
@@ -679,12 +731,20 @@ def expected_labels(case):
     return [re.sub(r"\s+", " ", "\n".join(f)) for f in frags[0]]
 
 
+def declared_of(case):
+    """the labels the definition declares: its own `_output_labels`, else (a python class attribute)
+    the ones its base class declares"""
+    if case["declared"] is not None or not case.get("base"):
+        return case["declared"]
+    return case["base"]["declared"]
+
+
 def fn_class_expectation(case):
     """'ok' / 'reject' / 'any' for class creation, by the property's reading of the definition"""
     if any(p["name"] in INIT_KEYWORDS + RUN_KEYWORDS for p in case["params"]):
         return "reject"                       # documented restriction on argument names
     multi = len(case["body"]) > 1
-    dec = case["declared"]
+    dec = declared_of(case)
     if multi and (case["validate"] or dec is None):
         return "reject"
     scraped = None if multi else expected_labels(case)
@@ -839,6 +899,13 @@ def oracle(case, obs):
 
 def _oracle(case, obs):
     k = case["kind"]
+    if k == "multi":            # every node is checked against its OWN specification
+        for i, (c, o) in enumerate(zip(case["cases"], obs)):
+            v = _oracle(c, o)
+            if v is not None:
+                sig, _, rest = v.partition(":")
+                return f"{sig}: [node {i}]{rest}"
+        return None
     if k == "fn":
         return oracle_fn(case, obs)
     if k == "dc":
@@ -862,7 +929,7 @@ def oracle_fn(case, obs):
               for p in params]
     if cins != exp_in:
         return f"input-preview: {cins} != {exp_in}"
-    dec = case["declared"]
+    dec = declared_of(case)
     multi = len(case["body"]) > 1
     scraped = None if multi else expected_labels(case)
     labels = dec if dec is not None else scraped
@@ -887,7 +954,7 @@ def oracle_fn(case, obs):
     # the bare function, bound by python itself
     src, _ = fn_source(case)
     f = load_module(src).f
-    if case["via"] == "at":
+    if case["via"] in ("at", "class"):
         f = f.node_function
     sig = inspect.signature(f)
     hints = {c[0]: c[1] for c in cins}
@@ -1010,13 +1077,34 @@ def oracle_dc(case, obs):
 
 
 # ---- known findings --------------------------------------------------------------------------
+def base_scrape_leaks(case):
+    """cause predicate: a derived hand-written class without declared labels, used after its base class,
+    whose base declares none either and has a single return statement that yields labels"""
+    b = case.get("base")
+    if case.get("kind") != "fn" or case.get("via") != "class" or not b or not case.get("base_first"):
+        return False
+    if case["declared"] is not None or b["declared"] is not None:
+        return False
+    if any(p["name"] in INIT_KEYWORDS + RUN_KEYWORDS for p in b["params"]):
+        return False
+    return expected_labels({**b, "via": "call", "base": None}) is not None
+
+
 def known(case, obs, verdict):
-    """no open finding: every oracle failure is a violation (the former five are regression cases in
-    corpus/C17/witnesses.json)"""
+    """attribute an oracle failure to a recorded finding by its cause predicate over the CASE"""
+    sig = verdict.split(":")[0]
+    if case.get("kind") == "multi":
+        import re
+        m = re.search(r"\[node (\d+)\]", verdict)
+        return known(case["cases"][int(m.group(1))], obs[int(m.group(1))], verdict) if m else None
+    if sig in ("output-labels", "class-rejected", "class-accepted") and base_scrape_leaks(case):
+        return "C17-scraped-labels-leak-to-subclass"
     return None
 
 
 def nontrivial(case, obs):
+    if case.get("kind") == "multi":
+        return any(nontrivial(c, o) for c, o in zip(case["cases"], obs))
     if not isinstance(obs, list) or len(obs) < 3 or obs[0][0] != "ok":
         return False
     return bool(obs[0][1][0]) and any(s[0][0] == "ok" for s in obs[2:])
@@ -1173,6 +1261,78 @@ def gen_fn(rng, ctx=None):
     case["ops"] = gen_ops(rng, [p["name"] for p in params], {p["name"]: atoms_of(p.get("ann")) for p in params},
                           [p["name"] for p in params if p["default"] is None])
     return case
+
+
+def gen_fn_class(rng):
+    """a hand-written `class f(Function)` -- most of the time deriving from a hand-written base class with
+    another signature, the base being used before or after the derived class"""
+    d = gen_fn(rng)
+    d["via"], d["postponed"] = "class", False
+    d.pop("nested", None)
+    d["base"], d["base_first"] = None, False
+    if rng.random() < 0.8:
+        b = gen_fn(rng)
+        r = rng.random()
+        if r < 0.25:                                  # same parameter names, other defaults/annotations
+            b["params"] = json.loads(json.dumps(d["params"]))
+            for p_ in b["params"]:
+                if p_["default"] is not None and p_["default"][0] == "i":
+                    p_["default"] = ["i", p_["default"][1] + 40]
+            b["body"] = [gen_stmt(rng, b["params"])]
+            b["ret"] = None
+        elif r < 0.45 and len(d["params"]) > 1:       # the derived class adds parameters to the base's
+            b["params"] = json.loads(json.dumps(d["params"][:-1]))
+            b["body"] = [gen_stmt(rng, b["params"])]
+            b["ret"] = None
+        d["base"] = {k2: b[k2] for k2 in ("params", "body", "ret", "declared", "validate")}
+        d["base_first"] = rng.random() < 0.65
+    return d
+
+
+def gen_multi(rng):
+    """several transformer nodes made in ONE process from related specifications: permuted inputs-to-dict
+    specs (name lists and full specs), the other kinds at neighbouring sizes"""
+    subs = []
+    r = rng.random()
+    m = rng.choice([2, 3, 3, 4, 5])
+    names = rng.sample(NAMES + ["p", "q"], m)
+    perms = [list(names)]
+    for _ in range(rng.choice([1, 2, 2, 3])):
+        q = list(names)
+        while q in perms and m > 1:
+            rng.shuffle(q)
+            if m == 2:
+                q = list(reversed(names))
+                break
+        perms.append(q)
+    if r < 0.45:
+        for q in perms:
+            vs = {nm: ["i", 10 * (names.index(nm) + 1)] for nm in names}
+            npos = rng.randint(0, m)
+            op0 = [[vs[nm] for nm in q[:npos]], [[nm, vs[nm]] for nm in reversed(q[npos:])]]
+            subs.append({"kind": "todict", "spec": ["names", q], "via": rng.choice(["function", "class"]),
+                         "ops": [op0, [[], []]]})
+    elif r < 0.85:
+        hints = {nm: rng.choice([None, ["u", ["int"], "pipe"], ["u", ["int", "NoneType"], "pipe"]]) for nm in names}
+        dfl = {nm: (["i", 7 + names.index(nm)] if rng.random() < 0.4 else ["nd"]) for nm in names}
+        for q in perms:
+            vs = {nm: ["i", 10 * (names.index(nm) + 1)] for nm in names}
+            npos = rng.randint(0, m)
+            op0 = [[vs[nm] for nm in q[:npos]], [[nm, vs[nm]] for nm in reversed(q[npos:])]]
+            subs.append({"kind": "todict", "spec": ["full", [[nm, hints[nm], dfl[nm]] for nm in q]],
+                         "via": rng.choice(["function", "class"]), "ops": [op0, [[], []]]})
+    else:
+        for n in [m, m + 1, m]:
+            k = rng.choice(["tolist", "toframe", "fromlist"])
+            vs = [["i", 10 * (i + 1)] for i in range(n)]
+            if k == "tolist":
+                subs.append({"kind": k, "n": n, "via": "function", "ops": [[vs, []], [[], []]]})
+            elif k == "toframe":
+                rows = [["m", "dict", [["a", v]]] for v in vs]
+                subs.append({"kind": k, "n": n, "via": "function", "ops": [[rows, []], [[], []]]})
+            else:
+                subs.append({"kind": k, "n": n, "via": "function", "ops": [[[["l", vs]], []], [[], []]]})
+    return {"kind": "multi", "via": "multi", "cases": subs}
 
 
 def gen_split(rng, names, atoms, provide, malformed=True):
@@ -1334,6 +1494,8 @@ def dict_order_clean(case):
         if isinstance(v, list):
             for x in v:
                 walk(x)
+    if case.get("kind") == "multi":
+        return all(dict_order_clean(c) for c in case["cases"])
     walk(case["ops"])
     for a, b in itertools.combinations(ds, 2):
         if a != b and dict((k, json.dumps(x)) for k, x in a[2]) == dict((k, json.dumps(x)) for k, x in b[2]):
@@ -1447,6 +1609,35 @@ def generate(ctx):
     if not ctx.quick:
         for c in exhaustive_fn_cases():
             add(c)
+    # the scenario of the docstring-style class hierarchy: base used first, then the derived class
+    scale = {"params": [{"name": "x", "ann": None, "default": None},
+                        {"name": "factor", "ann": ["u", ["int"], "plain"], "default": ["i", 2]}],
+             "body": [["single", ["p", "x"]]], "ret": None, "declared": None, "validate": True}
+    shift = {"kind": "fn", "params": [{"name": "x", "ann": None, "default": None},
+                                      {"name": "factor", "ann": ["u", ["int"], "plain"], "default": ["i", 3]},
+                                      {"name": "shift", "ann": ["u", ["int"], "plain"], "default": ["i", 10]}],
+             "body": [["single", ["p", "x"]]], "ret": None, "declared": None, "validate": True,
+             "via": "class", "postponed": False, "base": scale}
+    for bf in (True, False):
+        add({**shift, "base_first": bf, "ops": [[[], []], [[["i", 4]], []], [[["i", 4]], [["shift", ["i", 1]]]]]})
+        add({**shift, "base_first": bf, "declared": ["out"], "ops": [[[["i", 4], ["i", 5], ["i", 6]], []], [[], []]]})
+    for names_, perm in ((["a", "b", "c"], ["c", "a", "b"]), (["x", "y"], ["y", "x"])):
+        for kind_ in ("names", "full"):
+            def spec_(q):
+                return ["names", q] if kind_ == "names" else \
+                    ["full", [[nm, None, (["i", 7] if nm == names_[0] else ["nd"])] for nm in q]]
+            def sub_(q):
+                return {"kind": "todict", "spec": spec_(q), "via": "function",
+                        "ops": [[[["i", 10 * (names_.index(nm) + 1)] for nm in q], []], [[], []]]}
+            add({"kind": "multi", "via": "multi", "cases": [sub_(names_), sub_(perm), sub_(names_)]})
+    n_cls = ctx.n(150, 1800)
+    n_multi = ctx.n(60, 700)
+    target = len(cases) + n_cls
+    while len(cases) < target:
+        add(gen_fn_class(rng))
+    target += n_multi
+    while len(cases) < target:
+        add(gen_multi(rng))
     n_fn = ctx.n(620, 9000)
     n_tf = ctx.n(260, 3000)
     n_dc = ctx.n(200, 2500)
@@ -1473,6 +1664,15 @@ def corpus(ctx):
 
 def shrink_candidates(case):
     c = json.loads(json.dumps(case))
+    if c["kind"] == "multi":
+        subs = c["cases"]
+        for i in range(len(subs)):
+            if len(subs) > 1:
+                yield {**c, "cases": subs[:i] + subs[i + 1:]}
+        for i, sub in enumerate(subs):
+            for s2 in shrink_candidates(sub):
+                yield {**c, "cases": subs[:i] + [s2] + subs[i + 1:]}
+        return
     ops = c["ops"]
     for i in range(len(ops) - 1, 0, -1):
         if len(ops) > 2:
@@ -1496,7 +1696,11 @@ def shrink_candidates(case):
                 ps = json.loads(json.dumps(c["params"]))
                 ps[j]["ann"] = None
                 yield {**c, "params": ps}
-        if c["via"] != "call":
+        if c["via"] == "class" and c.get("base"):
+            yield {**c, "base": None, "base_first": False}
+            if c["base"].get("ret") is not None:
+                yield {**c, "base": {**c["base"], "ret": None}}
+        if c["via"] not in ("call", "class"):
             yield {**c, "via": "call"}
     if c["kind"] in ("tolist", "toframe", "fromlist") and c["n"] > 0:
         yield {**c, "n": c["n"] - 1}
@@ -1505,7 +1709,15 @@ def shrink_candidates(case):
 def distribution(results):
     d = {"kinds": {}, "class_rejected": 0, "construction_rejected": 0, "calls_ok": 0, "calls_rejected": 0,
          "params": {}, "outputs": {}, "via": {}}
+    flat = []
     for c, enc, v, o in results:
+        if c["kind"] == "multi":
+            d["kinds"]["multi"] = d["kinds"].get("multi", 0) + 1
+            if isinstance(o, list) and len(o) == len(c["cases"]):
+                flat.extend((c2, None, v, o2) for c2, o2 in zip(c["cases"], o))
+        else:
+            flat.append((c, enc, v, o))
+    for c, enc, v, o in flat:
         d["kinds"][c["kind"]] = d["kinds"].get(c["kind"], 0) + 1
         d["via"][c["via"]] = d["via"].get(c["via"], 0) + 1
         if not isinstance(o, list) or not o or not isinstance(o[0], list):
